@@ -473,6 +473,20 @@ theorem lin_next {db0 : Db C R D} (s : S C R W D) (e : Event R W D) (h1 : Inv1 s
     · exact h
     · rename_i i rest hp
       exact lin_exec ops s t i rest h1 h hp
+  | spur t u =>
+    simp only [next]
+    split
+    · rename_i rest hp
+      split
+      · have ht := h1.typed t
+        rw [hp] at ht
+        have hpre : s.wbit ≠ some t := by
+          rcases wsOf_cases s t with ⟨hw, _⟩ | ⟨hw, _⟩ | ⟨hw, h2, _⟩ | ⟨hw, _⟩ <;> rw [hw] at ht <;>
+            simp [wf] at ht
+          exact h2
+        exact lin_abort ops h1 h .busy s.db (fun hw => absurd hw hpre) (fun _ => rfl)
+      · exact h
+    · exact h
 
 theorem inv_lin_run {db0 : Db C R D} (evs : List (Event R W D)) (s : S C R W D)
     (he : ∀ e ∈ evs, e.isCode = true) (h1 : Inv1 s) (h : Lin ops db0 s) :
